@@ -91,8 +91,12 @@ class UpdateReferences:
           found = True
       elif isinstance(elem, gfapy.OrientedLine):
         if elem.line is oldref:
-          if hasattr(oldref, "is_complement") and \
-                            oldref.is_complement(newref):
+          if hasattr(oldref, "is_compatible_complement") and \
+              hasattr(newref, "oriented_from") and \
+              oldref.is_compatible_complement(newref.oriented_from,
+                newref.oriented_to, newref.overlap) and \
+              not oldref.is_compatible_direct(newref.oriented_from,
+                newref.oriented_to, newref.overlap):
             elem.orient = gfapy.invert(elem.orient)
           elem.line = newref
           found = True
